@@ -52,6 +52,17 @@ SIZE_ASSERTS = {"assertion failed: states.len() <": "SGASSERT",                 
                 "assertion failed: sg.all_states_len().as_storaget() <": "STASSERT"}  # StateTable::new before 394c6e3
 
 
+
+def _tmo(ms):
+    """per-case watchdog for the big builds (tens of thousands of states), scaled by the machine's load: the watchdog is
+    there to turn a genuine non-termination into an outcome, not to time a build on an oversubscribed machine (a thorough
+    run next to other jobs at load 8x the cores reported HANG for 65534-state tables that build in a minute otherwise)"""
+    try:
+        over = os.getloadavg()[0] / max(1, os.cpu_count() or 1)
+    except OSError:
+        over = 1.0
+    return str(int(ms * min(12.0, max(1.0, 1.5 * over))))
+
 def size_assert_class(msg):
     for pre, cls in SIZE_ASSERTS.items():
         if msg.startswith(pre):
@@ -425,9 +436,9 @@ def recovery_family(ctx, exe_r, exe_d, items, label):
     for name, src, ins, same in items:
         for w in WIDTHS:
             lines.append("N %d %s rec ; %s" % (w, hx(src), " ; ".join(ins)))
-    env = dict(REC_ENV, GVH_CASE_TIMEOUT_MS="120000")
-    out_r = core.run_lines([exe_r], lines, timeout=3000, env=env)
-    out_d = core.run_lines([exe_d], lines, timeout=3000, env=env)
+    env = dict(REC_ENV, GVH_CASE_TIMEOUT_MS=_tmo(120000))
+    out_r = core.run_lines([exe_r], lines, timeout=int(_tmo(3000000)) // 1000, env=env)
+    out_d = core.run_lines([exe_d], lines, timeout=int(_tmo(3000000)) // 1000, env=env)
     nbad = 0
     for k, (name, src, ins, same) in enumerate(items):
         ref = parse_impl(out_r[3 * k + 2])
@@ -664,11 +675,11 @@ def state_boundary_family(ctx, exe_r, exe_d, mexe):
     items = [(name, n, mk(n), ins(n)) for name, mk, ins in shapes
              for n in [253, 254, 255, 256] + ([65533, 65534, 65535, 65536] if (not ctx.quick and name == "rule-chain") else [])]
     lines = ["N %d %s ; %s" % (w, hx(src), " ; ".join(x for x in inputs if x)) for _, _, src, inputs in items for w in WIDTHS]
-    env = dict(REC_ENV, GVH_CASE_TIMEOUT_MS="900000")
-    out_r = core.run_lines([exe_r], lines, timeout=3000, env=env)
+    env = dict(REC_ENV, GVH_CASE_TIMEOUT_MS=_tmo(900000))
+    out_r = core.run_lines([exe_r], lines, timeout=int(_tmo(3000000)) // 1000, env=env)
     # debug profile: every width for the 8-bit sizes, the boundary width only for the 16-bit sizes (a 65 k-state build takes minutes)
     dkeys = [(k, j) for k, it in enumerate(items) for j in range(3) if it[1] < 1000 or j == 1]
-    out_d = dict(zip(dkeys, core.run_lines([exe_d], [lines[3 * k + j] for k, j in dkeys], timeout=3000, env=env)))
+    out_d = dict(zip(dkeys, core.run_lines([exe_d], [lines[3 * k + j] for k, j in dkeys], timeout=int(_tmo(3000000)) // 1000, env=env)))
     model = core.run_lines([mexe], ["1 %d O 1 1 - %d %d 0 ; 1:0:1" % (w, n, n) for _, n, _, _ in items for w in WIDTHS], timeout=3000)
     nbad = 0
     for k, (name, n, src, inputs) in enumerate(items):
@@ -812,15 +823,15 @@ def run(ctx):
             uniq.append(c)
     cases = uniq
 
-    env = dict(REC_ENV, GVH_CASE_TIMEOUT_MS="600000")
+    env = dict(REC_ENV, GVH_CASE_TIMEOUT_MS=_tmo(600000))
     hl = [c.harness_line(w) for c in cases for w in WIDTHS]
-    impl_r = core.run_lines([exe_r], hl, timeout=3000, env=env)
+    impl_r = core.run_lines([exe_r], hl, timeout=int(_tmo(3000000)) // 1000, env=env)
     # debug profile (overflow checks, debug assertions): all 8-bit-sized cases, the big ones only in thorough
     dbg_idx = [i for i, c in enumerate(cases)
                if not (c.rules > 1000 or c.tokens > 1000 or c.prods > 1000 or c.chain > 1000 or (c.long and sum(c.long) > 1000)
                        or (c.long2 and sum(c.long2) > 1000)) or not ctx.quick]
     dl = [cases[i].harness_line(w) for i in dbg_idx for w in WIDTHS]
-    impl_d_l = core.run_lines([exe_d], dl, timeout=3000, env=env)
+    impl_d_l = core.run_lines([exe_d], dl, timeout=int(_tmo(3000000)) // 1000, env=env)
     impl_d = {}
     for k, i in enumerate(dbg_idx):
         for j, w in enumerate(WIDTHS):
@@ -961,9 +972,9 @@ def run(ctx):
               ([] if ctx.quick else [(n, k) for n in [65534, 65535, 65536, 65537] for k in (0, 1)])
     lex_ns = [n for n, _ in lex_cfg]
     ll = ["L %d %s" % (w, hx(lex_src(n, k))) for n, k in lex_cfg for w in WIDTHS]
-    lex_r = core.run_lines([exe_r], ll, timeout=3000, env=env)
+    lex_r = core.run_lines([exe_r], ll, timeout=int(_tmo(3000000)) // 1000, env=env)
     # debug profile only for the 8-bit-sized lexers (65 k rules: the duplicate-name scan is quadratic)
-    lex_d_small = core.run_lines([exe_d], [l for l, n in zip(ll, [n for n in lex_ns for w in WIDTHS]) if n < 1000], timeout=3000, env=env)
+    lex_d_small = core.run_lines([exe_d], [l for l, n in zip(ll, [n for n in lex_ns for w in WIDTHS]) if n < 1000], timeout=int(_tmo(3000000)) // 1000, env=env)
     it = iter(lex_d_small)
     lex_d = [next(it) if n < 1000 else None for n in lex_ns for w in WIDTHS]
     lm = core.run_lines([mexe], ["%d %d O 1 1 - 3 3 %d ; 1:0:1" % (1 if GUARDS_FIXED else 0, w, n) for n in lex_ns for w in WIDTHS], timeout=3000)
